@@ -165,6 +165,10 @@ func (w *World) genCase(e int, k int64) *Case {
 				c.Data = c.Data[:maxInputSize]
 				c.Trail = append(c.Trail, "cap-4MiB")
 			}
+			if op == opValueEdit && strings.HasPrefix(d, "value-edit(") && !strings.HasPrefix(d, "value-edit(raw") && r.Intn(3) != 0 {
+				// keep the document well-formed so that the edited value reaches the code that interprets it
+				break
+			}
 		}
 		c.Mutated = nm > 0
 	}
